@@ -53,7 +53,7 @@ def cases(tier):
                                 "occ": {"min": 0, "max": 1, "nillable": True}}]]
         else:
             m = draw(spec.methods(U, name="m0", styles=(style,), xml=False))
-        vg = values.ValueGen(U, special_floats=False)
+        vg = values.ValueGen(U, special_floats=False, nil_items=True)
         if style == "bare_complex":
             args = [draw(vg.single(m["args"][0][1]))]
         else:
